@@ -272,6 +272,11 @@ class C10:
                 if kind == "extra-variable" and dels and any(t[0] == "launch" and k in scoped.get(t[1], ()) for t in trace[: dels[-1]]):
                     rec.violation("IMAGE/variable-deleted-after-a-scoped-override-is-still-exported", dict(case, steps=trace), {"key": k, "got": have, "last_ops": trace[-4:]})
                     return False
+                muts = [t for t in trace if t[0] in ("set", "del", "append-fresh-read", "append-held-reference") and t[1] == k]
+                if kind == "stale-value" and muts and muts[-1][0] == "append-held-reference" and how == "prep_env_subproc":
+                    # the last edit of this variable went through a reference obtained earlier; nothing read the variable since
+                    rec.violation("IMAGE/in-place-edit-through-a-held-reference-not-seen-by-the-cached-mapping", dict(case, steps=trace), {"key": k, "expected": want, "got": have, "last_ops": trace[-4:]})
+                    return False
                 rec.violation(f"IMAGE/{how}/{kind}", dict(case, steps=trace), {"key": k, "expected": want, "got": have, "last_ops": trace[-4:]})
                 return False
         return True
